@@ -6,6 +6,7 @@ import (
 	"go/token"
 	"go/types"
 	"sort"
+	"strings"
 
 	"golang.org/x/tools/go/ssa"
 )
@@ -215,9 +216,44 @@ func (f *Frame) execInstr(b *ssa.BasicBlock, in ssa.Instruction, o *blockOut) bo
 		v := f.val(x.X)
 		f.env[x] = Val{K: KIface, Tag: vc.typeTag(x.X.Type()), T: vc.box(v), Typ: x.Type()}
 	case *ssa.MakeClosure:
-		fv := Val{K: KFunc, Fn: x.Fn, Typ: x.Type(), T: IntLit(1)}
+		fv := Val{K: KFunc, Fn: x.Fn, Typ: x.Type()}
 		for _, bnd := range x.Bindings {
 			fv.Binds = append(fv.Binds, f.val(bnd))
+		}
+		if fn, ok := x.Fn.(*ssa.Function); ok && strings.HasSuffix(fn.Name(), "$bound") && len(fv.Binds) == 1 && fv.Binds[0].T.S != "" {
+			// method value: its identity is a function of the method and the receiver
+			name := boundFnName(strings.TrimSuffix(fn.String(), "$bound"))
+			vc.decls.Fun(name, []Sort{SInt}, SInt)
+			fv.T = App(SInt, name, fv.Binds[0].T)
+		} else {
+			// every evaluation of a function literal yields a function value of its own
+			fv.T = vc.newRef("closure")
+		}
+		if fn, ok := x.Fn.(*ssa.Function); ok {
+			if con := vc.eng.ct.ByKey[fn.String()]; con != nil && len(con.SelfEns) > 0 {
+				// trusted facts about the function value (`self`), stated over the captured variables
+				env := f.specEnv(st, x.Block(), x)
+				env.vars["self"] = Val{K: KInt, T: fv.T}
+				for i, fvv := range fn.FreeVars {
+					if i < len(fv.Binds) {
+						b := fv.Binds[i]
+						if pt, ok := fvv.Type().Underlying().(*types.Pointer); ok && b.K == KPtr {
+							env.vars[fvv.Name()] = vc.load(st, b, pt.Elem())
+						} else {
+							env.vars[fvv.Name()] = b
+						}
+					}
+				}
+				for _, cl := range con.SelfEns {
+					t, err := env.evalBool(cl.Expr)
+					if err != nil {
+						vc.specError(cl, err)
+						continue
+					}
+					vc.assume(Implies(g, t), "function literal "+fn.Name()+": "+cl.Src)
+					vc.trustNotes = append(vc.trustNotes, fmt.Sprintf("assumed about the function literal %s: %s", fn.Name(), cl.Src))
+				}
+			}
 		}
 		f.env[x] = fv
 		if closureEscapes(x) {
@@ -950,9 +986,15 @@ func (f *Frame) typeAssert(x *ssa.TypeAssert, g Term) Val {
 	at := x.AssertedType
 	var ok Term
 	var res Val
-	if _, isIface := at.Underlying().(*types.Interface); isIface {
-		ok = vc.freshBool("implements")
-		vc.assumeRaw(Implies(ok, Ne(v.Tag, IntLit(0))))
+	if ai, isIface := at.Underlying().(*types.Interface); isIface {
+		if st := x.X.Type(); types.Implements(st, ai) {
+			// the static type of the operand already implements the asserted interface:
+			// the assertion is the nil check go/ssa emits for method values
+			ok = Ne(v.Tag, IntLit(0))
+		} else {
+			ok = vc.freshBool("implements")
+			vc.assumeRaw(Implies(ok, Ne(v.Tag, IntLit(0))))
+		}
 		// if the dynamic type is known to be one of the tagged types implementing the interface we could decide; keep opaque
 		res = Val{K: KIface, Tag: v.Tag, T: v.T, Typ: at}
 	} else {
@@ -1033,3 +1075,5 @@ var wellKnownErrorsNew = map[string]bool{
 	"io.EOF": true, "io.ErrUnexpectedEOF": true, "io.ErrShortWrite": true, "io.ErrShortBuffer": true,
 	"io.ErrNoProgress": true, "io.ErrClosedPipe": true, "context.Canceled": true,
 }
+
+func boundFnName(method string) string { return "bound." + smtName(method) }
